@@ -70,6 +70,7 @@ ShapeDef(i) ==
                   @@ A("S1", 1, 5) :> [c |-> "const", v |-> Bool(TRUE)]
                   @@ A("S1", 1, 6) :> [c |-> "const", v |-> DateT(43890, 1, 2)]
                   @@ A("S1", 1, 7) :> [c |-> "const", v |-> Rat(5, 2)]
+                  @@ A("S1", 1, 9) :> [c |-> "const", v |-> Txt(<<>>)]          \* an empty text that no range covers
                   @@ A("S 2", 1, 1) :> Kc(1)
                   @@ A("S1", 2, 1) :> Fm(Bin("/", N1, Bin("-", RelRef(1, 1), N1)))
                   @@ A("S1", 2, 2) :> Fm(Bin("&", RelRef(1, 2), StrLit(<<120>>)))
